@@ -131,6 +131,17 @@ def register(gen, T):
         tws = normws(fn_body(pre, "trim_whitespace_start"))
         out.append(f"/-- `trim_whitespace_start` (used between a macro name and `(`) keeps `Endline` tokens -/\n"
                    f"def trimKeepsEndline : Bool := {'true' if 'if tok.is_whitespace() && *tok != Token::Endline {' in tws else 'false'}\n")
+        fsm = normws(fn_body(pre, "find_single_macro"))
+        sma = normws(fn_body(pre, "split_macro_args"))
+        asm = normws(fn_body(pre, "apply_single_macro"))
+        macrofacts = {
+            "findMacroUsesTrimStart": bool(re.search(r'if macro_def\.is_function \{ let trimmed = trim_whitespace_start\(&tokens\[i \+ 1\.\.\]\);', fsm)
+                                           and re.search(r'let \[PreprocessToken\(Token::LeftParen, _\), \.\.\] = trimmed else \{ continue; \};', fsm)),
+            "macroArgsUseTrim": bool(re.search(r'let arg = trim_whitespace\(&remaining\[\.\.pos\]\); args\.push\(arg\);', sma)),
+            "emptyArgsTestIsEmpty": bool(re.search(r'if macro_def\.num_params == 0 \{ if !\(args\.len\(\) == 1 && args\[0\]\.is_empty\(\)\) \{', asm)),
+        }
+        for k, v in macrofacts.items():
+            out.append(f"def {k} : Bool := {'true' if v else 'false'}\n")
         # the lexer produces the four whitespace kinds from these spellings
         lex = T.src("preprocess/src/lexer.rs")
         wsimple = normws(fn_body(lex, "whitespace_simple"))
